@@ -40,6 +40,13 @@ type histOpts struct {
 	// zeroPct: percentage of the small-step histories whose text is mostly
 	// 0x00 (the value of an empty hash table slot) with a few other bytes.
 	zeroPct int
+	// triplePct: percentage of histories whose text holds one string S three
+	// times, A ... B ... C, between incompressible fillers, with the distances
+	// drawn around the window size (A out of the window of C, B inside, or
+	// both inside, or both outside) and C at the very end of the text: the
+	// situations in which a parser has to fall back from a candidate outside
+	// the window to one inside.
+	triplePct int
 }
 
 func defaultHistOpts() histOpts {
@@ -105,6 +112,8 @@ func genParserHistory(t *rapid.T, x *parserExec, o histOpts) {
 		}
 	} else if tiny {
 		text = genText(t, "text", rapid.IntRange(2, 12).Draw(t, "tinyText"))
+	} else if o.triplePct > 0 && rapid.IntRange(0, 99).Draw(t, "tripleText") < o.triplePct {
+		text = genTripleText(t, cc, o.maxText)
 	} else if o.suffixPct > 0 && rapid.IntRange(0, 99).Draw(t, "suffixText") < o.suffixPct {
 		text, _ = genSuffixText(t, o.maxText)
 	} else {
@@ -282,4 +291,64 @@ func replayParserCase(c ParserCase, setup func(x *parserExec)) (*parserExec, err
 		x.step(op)
 	}
 	return x, nil
+}
+
+// genTripleText: filler . P.S . filler . P.S . filler . Q.S (see triplePct).
+func genTripleText(t *rapid.T, cc PCfg, maxText int) []byte {
+	limit := minInt(maxInt(cc.BufferSize, 64), maxText)
+	w := minInt(cc.WindowSize, limit)
+	x := rapid.Uint64().Draw(t, "tripleSeed")
+	filler := func(n int) []byte {
+		p := make([]byte, maxInt(n, 0))
+		for i := range p {
+			x += 0x9e3779b97f4a7c15
+			z := x
+			z = (z ^ (z >> 30)) * 0xbf58476d1ce4e5b9
+			z = (z ^ (z >> 27)) * 0x94d049bb133111eb
+			p[i] = 128 + byte((z^(z>>31))>>40)&127
+		}
+		return p
+	}
+	sl := rapid.IntRange(9, 60).Draw(t, "tripleS")
+	s := make([]byte, sl)
+	for i := range s {
+		s[i] = byte('a' + (i*7+int(x>>8))%26)
+		if i%2 == 1 {
+			s[i] = byte('A' + (i*5+int(x>>16))%26)
+		}
+	}
+	pre := []byte("<<<<")[:rapid.IntRange(0, 4).Draw(t, "triplePre")]
+	// distance from B to C and from A to C, relative to the window
+	dist := func(label string) int {
+		switch rapid.IntRange(0, 4).Draw(t, label) {
+		case 0:
+			return sl + 1 + rapid.IntRange(0, maxInt(w-sl-1, 0)).Draw(t, label+"in")
+		case 1:
+			return w
+		case 2:
+			return w + 1
+		case 3:
+			return w + 1 + rapid.IntRange(0, maxInt(limit/3, 1)).Draw(t, label+"out")
+		default:
+			return maxInt(w-1, sl+1)
+		}
+	}
+	dBC := dist("tripleBC")
+	dAC := dBC + sl + len(pre) + rapid.IntRange(1, maxInt(limit/3, 2)).Draw(t, "tripleAB")
+	if rapid.Bool().Draw(t, "tripleAout") && dAC <= w {
+		dAC = w + 1 + rapid.IntRange(0, 8).Draw(t, "tripleAoutBy")
+	}
+	lead := rapid.IntRange(0, 40).Draw(t, "tripleLead")
+	var out []byte
+	out = append(out, filler(lead)...)
+	out = append(out, pre...)
+	out = append(out, s...) // A
+	out = append(out, filler(dAC-dBC-sl-len(pre))...)
+	out = append(out, pre...)
+	out = append(out, s...) // B
+	q := []byte(">>>>")[:rapid.IntRange(0, 4).Draw(t, "tripleQ")]
+	out = append(out, filler(dBC-sl-len(q))...)
+	out = append(out, q...)
+	out = append(out, s...) // C, at the very end
+	return out
 }
